@@ -91,7 +91,11 @@ pub enum RespSeal {
     /// MESSAGE-INTEGRITY good, MESSAGE-INTEGRITY-SHA256 bad (under creds(i)) and vice versa
     GoodBad(u8),
     BadGood(u8),
+    /// one integrity attribute with an impossible value length (index into ODD_LENS), under creds(i)
+    OddLen(u8, u8),
 }
+
+pub const ODD_LENS: [(u16, usize); 7] = [(MI, 16), (MI, 24), (MI, 0), (MI, 19), (MI256, 36), (MI256, 18), (MI256, 12)];
 
 #[derive(Clone, Copy, Debug, PartialEq, Eq)]
 pub enum PollAt {
@@ -117,6 +121,10 @@ pub enum Op {
     CancelRetrans(u8),
     Configure { tid: u8, rto: u64, n: u32, last: u64 },
     SetRemote(u8),
+    /// set_local_credentials: has no effect on any reply
+    SetLocal(u8),
+    /// StunAgent::send_data of `len` arbitrary bytes: produces a Transmit, changes nothing
+    SendData { dest: u8, len: u16 },
     Advance(u64),
 }
 
@@ -125,6 +133,8 @@ pub struct History {
     pub tcp: bool,
     /// remote credentials set before the first operation (None = unset)
     pub remote0: Option<u8>,
+    /// `StunAgentBuilder::remote_addr` (None = not configured)
+    pub remote_addr: Option<u8>,
     pub ops: Vec<Op>,
 }
 
@@ -141,6 +151,7 @@ fn seal_json(s: &RespSeal) -> Value {
         RespSeal::CorruptSha256(c) => json!(["corrupt-sha256", c]),
         RespSeal::GoodBad(c) => json!(["good-bad", c]),
         RespSeal::BadGood(c) => json!(["bad-good", c]),
+        RespSeal::OddLen(c, k) => json!(["odd-len", c, k]),
     }
 }
 fn seal_from(v: &Value) -> Option<RespSeal> {
@@ -157,6 +168,7 @@ fn seal_from(v: &Value) -> Option<RespSeal> {
         "corrupt-sha256" => RespSeal::CorruptSha256(c),
         "good-bad" => RespSeal::GoodBad(c),
         "bad-good" => RespSeal::BadGood(c),
+        "odd-len" => RespSeal::OddLen(c, a.get(2)?.as_u64()? as u8),
         _ => return None,
     })
 }
@@ -178,6 +190,8 @@ impl Op {
             Op::CancelRetrans(t) => json!({"op": "cancel_retransmissions", "tid": t}),
             Op::Configure { tid, rto, n, last } => json!({"op": "configure", "tid": tid, "rto": rto, "n": n, "last": last}),
             Op::SetRemote(c) => json!({"op": "set_remote", "creds": c}),
+            Op::SetLocal(c) => json!({"op": "set_local", "creds": c}),
+            Op::SendData { dest, len } => json!({"op": "send_data", "dest": dest, "len": len}),
             Op::Advance(ms) => json!({"op": "advance", "ms": ms}),
         }
     }
@@ -214,6 +228,8 @@ impl Op {
             "cancel_retransmissions" => Op::CancelRetrans(u("tid")? as u8),
             "configure" => Op::Configure { tid: u("tid")? as u8, rto: u("rto")?, n: u("n")? as u32, last: u("last")? },
             "set_remote" => Op::SetRemote(u("creds")? as u8),
+            "set_local" => Op::SetLocal(u("creds")? as u8),
+            "send_data" => Op::SendData { dest: u("dest")? as u8, len: u("len")? as u16 },
             "advance" => Op::Advance(u("ms")?),
             _ => return None,
         })
@@ -222,12 +238,13 @@ impl Op {
 
 impl History {
     pub fn to_json(&self) -> Value {
-        json!({"kind": "history", "tcp": self.tcp, "remote0": self.remote0, "ops": self.ops.iter().map(|o| o.to_json()).collect::<Vec<_>>()})
+        json!({"kind": "history", "tcp": self.tcp, "remote0": self.remote0, "remote_addr": self.remote_addr, "ops": self.ops.iter().map(|o| o.to_json()).collect::<Vec<_>>()})
     }
     pub fn from_json(v: &Value) -> Option<History> {
         Some(History {
             tcp: v.get("tcp")?.as_bool()?,
             remote0: v.get("remote0").and_then(|x| x.as_u64()).map(|x| x as u8),
+            remote_addr: v.get("remote_addr").and_then(|x| x.as_u64()).map(|x| x as u8),
             ops: v.get("ops")?.as_array()?.iter().map(Op::from_json).collect::<Option<Vec<_>>>()?,
         })
     }
@@ -313,6 +330,10 @@ pub fn build_response(tid: u8, error: bool, seal: RespSeal, fp: bool, salt: u16)
         RespSeal::BadGood(c) => {
             crate::refimpl::parse::seal(&mut b, Seal::BadSha1, &creds(c as usize).key());
             crate::refimpl::parse::seal(&mut b, Seal::Sha256(32), &creds(c as usize).key());
+        }
+        RespSeal::OddLen(c, k) => {
+            let (ty, n) = ODD_LENS[k as usize % ODD_LENS.len()];
+            crate::refimpl::parse::seal(&mut b, Seal::OddLen(ty, n), &creds(c as usize).key());
         }
     }
     if fp {
@@ -419,6 +440,8 @@ pub struct RunCfg {
     pub trap_clock: bool,
     /// skip the end-of-history drain
     pub no_final_drain: bool,
+    /// record the calls and replies of this run for the offline checker (if an event log is open)
+    pub record: bool,
 }
 
 #[derive(Clone, Debug, Default)]
@@ -451,6 +474,8 @@ struct Eng<'c> {
     failed: bool,
     noise: Vec<StunAgent>,
     step: usize,
+    /// recorded call/reply events for the offline checker (tools/agentcheck.py)
+    rec: Option<Vec<String>>,
 }
 
 fn ms_of(base: Instant, t: Instant) -> i128 {
@@ -473,6 +498,15 @@ impl<'c> Eng<'c> {
         self.failed = true;
         let w = self.wit();
         self.ctx.violation(tag, assertion, entry, feature, || w, expected, observed);
+    }
+
+    #[inline]
+    fn rec(&mut self, f: impl FnOnce() -> Value) {
+        if let Some(r) = &mut self.rec {
+            let mut v = f();
+            v["k"] = json!("agent");
+            r.push(v.to_string());
+        }
     }
 
     fn at(&self, ms: u64) -> Instant {
@@ -519,6 +553,23 @@ impl<'c> Eng<'c> {
 
     /// observation after every call: outstanding-ness, peer address, validated peers
     fn observe(&mut self) {
+        if self.rec.is_some() {
+            let mut out = vec![];
+            for i in 0..NTID {
+                let tid = imp::tid_from_bytes(&tid_bytes(i));
+                if let Some(r) = self.agent.request_transaction(tid) {
+                    out.push(json!([hex(&tid_bytes(i)), r.peer_address().to_string()]));
+                }
+            }
+            let mut val = vec![];
+            let universe: Vec<SocketAddr> = (0..NADDR).map(addr).chain(["203.0.113.9:9".parse().unwrap(), local_addr()]).collect();
+            for a in universe {
+                if self.agent.is_validated_peer(a) {
+                    val.push(a.to_string());
+                }
+            }
+            self.rec(|| json!({"op": "observe", "outstanding": out, "validated": val}));
+        }
         for i in 0..NTID {
             let tid = imp::tid_from_bytes(&tid_bytes(i));
             let got = self.agent.request_transaction(tid).map(|r| r.peer_address());
@@ -605,6 +656,15 @@ impl<'c> Eng<'c> {
             StunAgentPollRet::TransactionCancelled(id) => R::Cancelled(imp::tid_to_bytes(id)),
         })?;
         self.res.steps += 1;
+        if self.rec.is_some() {
+            let ev = match &r {
+                R::Wait(w) => json!({"op": "poll", "t": now, "res": "wait", "until": w}),
+                R::Send(d, f, t2, tr) => json!({"op": "poll", "t": now, "res": "send", "tx": {"data": hex(d), "from": f.to_string(), "to": t2.to_string(), "transport": tr.to_string()}}),
+                R::TimedOut(t) => json!({"op": "poll", "t": now, "res": "timeout", "tid": hex(t)}),
+                R::Cancelled(t) => json!({"op": "poll", "t": now, "res": "cancelled", "tid": hex(t)}),
+            };
+            self.rec(|| ev);
+        }
         // what the model admits
         let mut must: Vec<(usize, Action)> = vec![];
         let mut may: Vec<usize> = vec![];
@@ -807,6 +867,14 @@ impl<'c> Eng<'c> {
         let i = tid as usize % NTID;
         let is_req = kind == MsgKind::Request;
         let outstanding = self.model.txs.contains_key(&i);
+        if self.rec.is_some() {
+            let ev = match &r {
+                R::Ok(d, f, t2, tr) => json!({"op": "send", "t": now, "bytes": hex(&bytes), "to": to.to_string(), "res": "ok", "tx": {"data": hex(d), "from": f.to_string(), "to": t2.to_string(), "transport": tr.to_string()}}),
+                R::InProgress => json!({"op": "send", "t": now, "bytes": hex(&bytes), "to": to.to_string(), "res": "inprogress"}),
+                R::Err(e) => json!({"op": "send", "t": now, "bytes": hex(&bytes), "to": to.to_string(), "res": e}),
+            };
+            self.rec(|| ev);
+        }
         match r {
             R::Ok(data, from, to2, transport) => {
                 self.res.log.push(format!("send@{now} {kind:?} tid#{i} -> Transmit({} bytes {:08x} to {to2})", data.len(), crate::refimpl::crypto::crc32_fast(&data)));
@@ -876,6 +944,17 @@ impl<'c> Eng<'c> {
         }) else {
             return;
         };
+        if self.rec.is_some() {
+            let ev = match &r {
+                R::Drop => json!({"op": "handle", "t": now, "buf": hex(&bytes), "from": from_a.to_string(), "res": "drop"}),
+                R::Response(t, c) => json!({"op": "handle", "t": now, "buf": hex(&bytes), "from": from_a.to_string(), "res": "response", "rtid": hex(t), "rclass": c}),
+                R::Incoming(t, c) => json!({"op": "handle", "t": now, "buf": hex(&bytes), "from": from_a.to_string(), "res": "incoming", "rtid": hex(t), "rclass": c}),
+                R::ParseFailed(_) => Value::Null,
+            };
+            if !ev.is_null() {
+                self.rec(|| ev);
+            }
+        }
         let i = tid as usize % NTID;
         let rname = match &r {
             R::Drop => "Drop".to_string(),
@@ -925,10 +1004,14 @@ impl<'c> Eng<'c> {
                 None => (false, true, "request was sealed and no remote credentials are configured".to_string()),
                 Some(c) => {
                     let ri = ref_integrity(&bytes, &rp.attrs, &creds(c));
+                    let last_ok = last_exposed_integrity(&rp.attrs).and_then(|li| ri.correct_at(li));
                     if ri.all_correct() {
                         (true, false, format!("every integrity attribute validates under remote credentials #{c}"))
                     } else if ri.none_correct() {
                         (false, true, format!("no integrity attribute validates under remote credentials #{c} ({:?})", ri.attrs))
+                    } else if last_ok != Some(true) {
+                        // the authoritative (last exposed) integrity attribute is wrong: same as a tampered HMAC
+                        (false, true, format!("the last exposed integrity attribute does not validate under remote credentials #{c} ({:?})", ri.attrs))
                     } else {
                         (false, false, "integrity attributes partly valid".to_string())
                     }
@@ -1036,6 +1119,7 @@ impl<'c> Eng<'c> {
                     None => false,
                 });
                 self.last_wait = None;
+                self.rec(|| json!({"op": if full { "cancel" } else { "cancel_retrans" }, "tid": hex(&tid_bytes(i)), "found": found}));
                 self.res.log.push(format!("{}@{} tid#{i} -> {found:?}", if full { "cancel" } else { "cancel_retransmissions" }, self.now));
                 if let Some(tx) = self.model.txs.get_mut(&i) {
                     tx.send_cancelled = true;
@@ -1057,6 +1141,7 @@ impl<'c> Eng<'c> {
                     None => false,
                 });
                 self.last_wait = None;
+                self.rec(|| json!({"op": "configure", "tid": hex(&tid_bytes(i)), "rto": rto, "n": n, "last": last, "found": found}));
                 self.res.log.push(format!("configure@{} tid#{i} ({rto},{n},{last}) -> {found:?}", self.now));
                 let tcp = self.model.tcp;
                 if let Some(tx) = self.model.txs.get_mut(&i) {
@@ -1071,7 +1156,27 @@ impl<'c> Eng<'c> {
                 let ic = imp::to_impl_creds(&creds(c));
                 self.call(|a| a.set_remote_credentials(ic));
                 self.model.remote = Some(c);
+                self.rec(|| json!({"op": "set_remote", "cred": creds(c).to_json()}));
                 self.res.log.push(format!("set_remote#{c}"));
+            }
+            Op::SetLocal(c) => {
+                // local credentials are stored for the caller's use only: no reply may depend on them
+                let ic = imp::to_impl_creds(&creds(*c as usize));
+                self.call(|a| a.set_local_credentials(ic));
+                self.res.log.push("set_local".to_string());
+            }
+            Op::SendData { dest, len } => {
+                // raw data through the agent: a Transmit with the agent's addressing, no state change
+                let data: Vec<u8> = (0..*len as usize).map(|j| (j * 13 + *len as usize) as u8).collect();
+                let to = addr(*dest as usize);
+                let r = self.call(|a| {
+                    let t = a.send_data(&data, to);
+                    (t.data().to_vec(), t.from, t.to, t.transport)
+                });
+                if let Some((d, f, t2, tr)) = r {
+                    self.res.log.push(format!("send_data {} bytes to {t2}", d.len()));
+                    self.check_transmit("StunAgent::send_data", &d, f, t2, tr, &data, *dest as usize);
+                }
             }
             Op::Advance(ms) => {
                 self.now += ms;
@@ -1119,6 +1224,8 @@ impl<'c> Eng<'c> {
             StunAgentPollRet::WaitUntil(_) => None,
             other => Some(format!("{other:?}")),
         });
+        let quiet = matches!(r, Some(None));
+        self.rec(|| json!({"op": "quiescent", "late_poll": if quiet { "wait" } else { "event" }}));
         if let Some(Some(ev)) = r {
             self.fail("C05", "no-ghost-event", "StunAgent::poll", "", "WaitUntil (nothing outstanding)".into(), ev[..ev.len().min(200)].to_string());
         }
@@ -1129,7 +1236,14 @@ impl<'c> Eng<'c> {
 /// Execute `h` on a fresh agent in lock-step with the model.
 pub fn run_history(ctx: &mut Ctx, h: &History, cfg: &RunCfg) -> RunResult {
     let transport = if h.tcp { TransportType::Tcp } else { TransportType::Udp };
-    let agent = match guard(|| StunAgent::builder(transport, local_addr()).build()) {
+    let ra = h.remote_addr.map(|i| addr(i as usize));
+    let agent = match guard(|| {
+        let b = StunAgent::builder(transport, local_addr());
+        match ra {
+            Some(a) => b.remote_addr(a).build(),
+            None => b.build(),
+        }
+    }) {
         Ok(a) => a,
         Err(p) => {
             let prop = ctx.prop.clone();
@@ -1151,9 +1265,15 @@ pub fn run_history(ctx: &mut Ctx, h: &History, cfg: &RunCfg) -> RunResult {
         failed: false,
         noise: vec![],
         step: 0,
+        rec: None,
     };
-    if e.agent.transport() != transport || e.agent.local_addr() != local_addr() {
-        e.fail("C18", "agent-identity", "StunAgent::{transport,local_addr}", "", format!("{transport} {}", local_addr()), format!("{} {}", e.agent.transport(), e.agent.local_addr()));
+    if cfg.record && e.ctx.eventlog.is_some() && e.ctx.eventlog_left > 64 {
+        e.rec = Some(Vec::with_capacity(64));
+        let r0 = h.remote0.map(|c| creds(c as usize % 3).to_json());
+        e.rec(|| json!({"op": "begin", "tcp": h.tcp, "local": local_addr().to_string(), "remote0": r0, "remote_addr": ra.map(|a| a.to_string())}));
+    }
+    if e.agent.transport() != transport || e.agent.local_addr() != local_addr() || e.agent.remote_addr() != ra {
+        e.fail("C18", "agent-identity", "StunAgent::{transport,local_addr,remote_addr}", "", format!("{transport} {} {ra:?}", local_addr()), format!("{} {} {:?}", e.agent.transport(), e.agent.local_addr(), e.agent.remote_addr()));
     }
     if let Some(c) = h.remote0 {
         let ic = imp::to_impl_creds(&creds(c as usize % 3));
@@ -1178,6 +1298,19 @@ pub fn run_history(ctx: &mut Ctx, h: &History, cfg: &RunCfg) -> RunResult {
         e.final_drain();
     }
     e.ctx.count_n("agent-calls", e.res.steps + ops.len() as u64);
+    if let Some(mut lines) = e.rec.take() {
+        let failed = e.failed;
+        lines.push(json!({"k": "agent", "op": "end", "rust_failed": failed, "drained": !cfg.no_final_drain}).to_string());
+        let n = lines.len() as u64;
+        if let Some(w) = &mut e.ctx.eventlog {
+            use std::io::Write;
+            for l in &lines {
+                let _ = writeln!(w, "{l}");
+            }
+        }
+        e.ctx.eventlog_left = e.ctx.eventlog_left.saturating_sub(n);
+        e.ctx.count("histories-recorded-for-offline-check");
+    }
     e.res
 }
 
@@ -1186,7 +1319,8 @@ pub fn run_history(ctx: &mut Ctx, h: &History, cfg: &RunCfg) -> RunResult {
 
 pub fn gen_resp_seal(rng: &mut Rng) -> RespSeal {
     let c = rng.below(3) as u8;
-    match rng.below(12) {
+    match rng.below(13) {
+        12 => RespSeal::OddLen(c, rng.below(ODD_LENS.len() as u64) as u8),
         0 | 1 => RespSeal::Unsigned,
         2 | 3 => RespSeal::Sha1(c),
         4 => RespSeal::Sha256(c, 32),
@@ -1278,12 +1412,14 @@ pub fn gen_history(rng: &mut Rng, len: usize, ntid: u8, emphasis: &str) -> Histo
                 83..=86 => Op::CancelRetrans(tid),
                 87..=92 => gen_configure(rng, tid),
                 93..=95 => Op::SetRemote(rng.below(3) as u8),
+                96 => Op::SetLocal(rng.below(4) as u8),
+                97 => Op::SendData { dest: rng.below(5) as u8, len: rng.below(1500) as u16 },
                 _ => Op::Advance(rng.below(5_000)),
             },
         };
         ops.push(op);
     }
-    History { tcp, remote0: if rng.chance(2, 3) { Some(rng.below(3) as u8) } else { None }, ops }
+    History { tcp, remote0: if rng.chance(2, 3) { Some(rng.below(3) as u8) } else { None }, remote_addr: if rng.chance(1, 3) { Some(rng.below(5) as u8) } else { None }, ops }
 }
 
 /// the reduced alphabet of the systematic small-scope enumeration
@@ -1318,7 +1454,7 @@ pub fn for_each_small(depth: usize, alphabet: &[Op], tcp: bool, mut f: impl FnMu
             ops.push(alphabet[(c % n) as usize].clone());
             c /= n;
         }
-        f(code, History { tcp, remote0: Some(0), ops });
+        f(code, History { tcp, remote0: Some(0), remote_addr: None, ops });
     }
 }
 
